@@ -24,3 +24,73 @@ package percolator
 //@   ensures [math] lock != nil ==> (result <==> (lock.TTL != 0 && math(currentTs) >= math(lock.Ts) + math(lock.TTL)))
 //@   ensures [nil-lock] lock == nil ==> !result
 //@   modifies nothing
+
+// ---- C18 / C19 kernel: per-key commit and rollback against the storage boundary ----
+// The reader's lookups are trusted abstract callees; what they report is recorded in
+// ghost variables so that the callers can be held to "what was seen decides what is
+// done": lookups counts the calls, lastFound/lastRollback describe the latest answer,
+// sawRollback is sticky (any rollback record reported so far).
+
+//@ ghost var lookups Int
+//@ ghost var lastFound bool
+//@ ghost var lastRollback bool
+//@ ghost var sawRollback bool
+
+//@ func (*Reader).GetWriteByStartTs
+//@   trusted
+//@   ghost lookups = lookups + 1
+//@   ghost lastFound = result != nil
+//@   ghost lastRollback = result != nil && int32(result.Kind) == 3
+//@   ghost sawRollback = sawRollback || (result != nil && int32(result.Kind) == 3)
+//@   ensures [error-means-no-record] result2 != nil ==> result == nil
+//@   modifies nothing
+
+//@ func (*Reader).GetLock
+//@   trusted
+//@   tag ghost-pure
+//@   modifies nothing
+
+//@ func keyErrorAbort
+//@   trusted
+//@   tag ghost-pure
+//@   ensures [non-nil] result != nil
+//@   modifies nothing
+//@ func keyErrorRetryable
+//@   trusted
+//@   tag ghost-pure
+//@   ensures [non-nil] result != nil
+//@   modifies nothing
+//@ func keyErrorCommitTsExpired
+//@   trusted
+//@   tag ghost-pure
+//@   ensures [non-nil] result != nil
+//@   modifies nothing
+//@ func keyErrorLocked
+//@   trusted
+//@   tag ghost-pure
+//@   ensures [non-nil] result != nil
+//@   modifies nothing
+
+//@ func commitKey
+//@   property C18 C19
+//@   requires lock != nil
+//@   ensures [refuse-below-min-commit] old(lock.MinCommitTs) > commitVersion ==> result != nil && dbWrites == old(dbWrites) && lookups == old(lookups)
+//@   ensures [rolled-back-aborts] lookups == old(lookups) + 1 && lastRollback ==> result != nil && dbWrites == old(dbWrites)
+//@   ensures [success-saw-no-rollback] result == nil ==> sawRollback == old(sawRollback)
+//@   ensures [record-before-lock-removal] old(lockDeletes) == 0 ==> (!writeAfterLockDelete || old(writeAfterLockDelete))
+//@   ensures [at-most-one-record] writeCFSets <= old(writeCFSets) + 1 && writeCFSets >= old(writeCFSets)
+//@   ensures [already-decided-writes-no-record] lookups == old(lookups) + 1 && lastFound ==> writeCFSets == old(writeCFSets)
+//@   modifies nothing
+
+//@ func rollbackKey
+//@   property C18
+//@   ensures [one-lookup] lookups == old(lookups) + 1
+//@   ensures [decided-transaction-untouched] lastFound ==> result == nil && dbWrites == old(dbWrites)
+//@   ensures [rollback-record-last] result == nil && !lastFound ==> writeCFSets == old(writeCFSets) + 1 && lockDeletes == old(lockDeletes) + 1 && defaultDeletes == old(defaultDeletes) + 1
+//@   modifies nothing
+
+//@ func Commit
+//@   property C18
+//@   requires latches == nil || len(latches.stripes) > 0
+//@   ensures [rolled-back-fails] sawRollback && !old(sawRollback) ==> result != nil
+//@   loop 1 invariant [no-rollback-seen-yet] sawRollback == old(sawRollback)
